@@ -325,6 +325,15 @@ func c04Run(c *core.Ctx, idx int) {
 		}
 	}
 	if r.Chance(1, 8) {
+		// an error left behind in some instance by an earlier call says nothing about what the instance holds
+		tree.Walk(func(n *TNode) {
+			if (n.T == "stack" || n.T == "cond") && r.Chance(1, 3) {
+				n.LeftErr = true
+			}
+		})
+		c.Count("trees.with-left-over-errors")
+	}
+	if r.Chance(1, 8) {
 		// Conditions assembled piecemeal that never received an operator
 		tree.Walk(func(n *TNode) {
 			if n.T == "cond" && r.Chance(1, 2) {
